@@ -107,7 +107,7 @@ func (c *Real64) Div(a, b ConstScalar) Scalar {
 }
 /* -------------------------------------------------------------------------- */
 func (c *Real64) LogAdd(a, b ConstScalar, t Scalar) Scalar {
-  if a.Greater(b) {
+  if a.GetFloat64() > b.GetFloat64() {
     // swap
     a, b = b, a
   }
